@@ -253,7 +253,7 @@ def extract_coerce_order() -> dict:
         if isinstance(node, ast.Call) and isinstance(node.func, ast.Name) and node.func.id == "FloatExpression":
             for kw in node.keywords:
                 if kw.arg == "value" and isinstance(kw.value, ast.Call) and isinstance(kw.value.func, ast.Name) \
-                        and kw.value.func.id == "repr":
+                        and kw.value.func.id in ("repr", "str"):  # identical for floats in Python 3
                     float_repr = True
     if not float_repr:
         raise ExtractError("coerce_expression: floats are not rendered as FloatExpression(value=repr(value))")
